@@ -259,6 +259,8 @@ def known_match(pid, c, known, job=None):
             continue
         if m.get("clause") and m["clause"] != c[1]:
             continue
+        if m.get("clause_prefix") and not c[1].startswith(m["clause_prefix"]):
+            continue
         if m.get("where") and m["where"] != c[2]:
             continue
         return k
@@ -485,7 +487,9 @@ def main():
     for c, (job, seed, res) in sorted(found.items(), key=lambda x: x[1][1]):
         k = known_match(pid, c, known, job)
         if k:
-            known_lines.append("KNOWN-FINDING: property=%s %s" % (pid, k.get("what", class_key(c))))
+            kl = "KNOWN-FINDING: property=%s %s" % (pid, k.get("what", class_key(c)))
+            if kl not in known_lines:
+                known_lines.append(kl)
         else:
             unknown.append((c, job, seed, res))
     for c, job, seed, res in unknown[:4]:
